@@ -119,8 +119,10 @@ harness(void)
 
         g_in_len = NMAX;
         g_out_len = NMAX + 64;
-        g_in = malloc(NMAX);
-        g_out = malloc(NMAX + 64);
+        /* zero-initialised static objects (contents are irrelevant: no byte is moved or read) */
+        static uint8_t in_obj[NMAX], out_obj[NMAX + 64];
+        g_in = in_obj;
+        g_out = out_obj;
         static struct isal_zstream S;
         struct isal_zstream *stream = &S;
         if (!g_in || !g_out)
